@@ -16,7 +16,7 @@ type c02X struct {
 	Markers   []string // expected code class / code per marker, e.g. "250"
 	MarkMail  string   // address of the marker MAIL ("" if none)
 	ReadAll   bool
-	LimitKind int // 0 none, 1 below, 2 at, 3 above
+	LimitKind int  // 0 none, 1 below, 2 at, 3 above
 	Stall     bool // the client pauses inside the message for longer than ReadTimeout
 }
 
